@@ -174,6 +174,37 @@ func genTriples(r *hx.Rand, sample int, emit func(*N, string)) {
 	}
 }
 
+// all chains a[b[c]] over the tightly binding operators (always run: prefix/postfix operators meet here)
+func genTightTriples(r *hx.Rand, emit func(*N, string)) {
+	tight := map[string]bool{"unary:sub": true, "unary:not": true, "preincr": true, "postincr": true, "field": true,
+		"index": true, "binary:pow": true, "binary:concat": true, "binary:gt": true, "cond": true}
+	var sub []opSpec
+	for _, o := range ops {
+		if tight[o.name] {
+			sub = append(sub, o)
+		}
+	}
+	for _, a := range sub {
+		for i := range a.slots {
+			for _, b := range sub {
+				for j := range b.slots {
+					for _, c := range sub {
+						ci := mk(r, c, nil)
+						if !slotAccepts(b.slots[j], ci) {
+							continue
+						}
+						bi := mk(r, b, map[int]*N{j: ci})
+						if !slotAccepts(a.slots[i], bi) {
+							continue
+						}
+						emit(mk(r, a, map[int]*N{i: bi}), "tight-triple")
+					}
+				}
+			}
+		}
+	}
+}
+
 func randTree(r *hx.Rand, depth int, slot byte) *N {
 	if depth <= 0 || r.Intn(7) == 0 {
 		return leaf(r, slot, r.Intn(3))
@@ -265,6 +296,7 @@ func genCases(o hx.Opts, r *hx.Rand) []*kase {
 	}
 
 	thorough := o.Tier == "thorough"
+	genTightTriples(r, emit)
 	if thorough {
 		genPairs(r, emitAll)
 		genTriples(r, 0, emit)
